@@ -12,21 +12,35 @@ package topo
 //@ import topoapi "github.com/onosproject/onos-api/go/onos/topo"
 
 //@ ghost topoWrites int
+//@ ghost topoCreates int
+//@ ghost topoDeletes int
+//@ ghost lastTopoGetOK bool
+//@ ghost lastTopoCreateID string
+//@ ghost lastTopoCreateIsControls bool
+//@ ghost lastTopoCreateSrc string
+//@ ghost lastTopoCreateTgt string
+//@ ghost lastTopoDeleteID string
 
 //@ iface Store.Get(ctx, id) (result, err)
-//@   modifies nothing
+//@   modifies lastTopoGetOK
+//@   ensures lastTopoGetOK == (err == nil)
 //@   ensures err != nil ==> result == nil
 //@   ensures err == nil ==> result != nil && fresh(result) && result.ID == id
 
+//@ spec isControlsRelation(o *topoapi.Object) bool = o.Type == topoapi.Object_RELATION && isType(o.Obj, "*topoapi.Object_Relation") && asType(o.Obj, "*topoapi.Object_Relation") != nil && asType(o.Obj, "*topoapi.Object_Relation").Relation != nil && asType(o.Obj, "*topoapi.Object_Relation").Relation.KindID == topoapi.CONTROLS
 //@ iface Store.Create(ctx, object) (err)
-//@   modifies topoWrites
-//@   ensures topoWrites == old(topoWrites) + 1
+//@   requires object != nil
+//@   modifies topoWrites, topoCreates, lastTopoCreateID, lastTopoCreateIsControls, lastTopoCreateSrc, lastTopoCreateTgt
+//@   ensures topoWrites == old(topoWrites) + 1 && topoCreates == old(topoCreates) + 1
+//@   ensures lastTopoCreateID == object.ID && lastTopoCreateIsControls == isControlsRelation(object)
+//@   ensures isControlsRelation(object) ==> lastTopoCreateSrc == asType(object.Obj, "*topoapi.Object_Relation").Relation.SrcEntityID && lastTopoCreateTgt == asType(object.Obj, "*topoapi.Object_Relation").Relation.TgtEntityID
 //@ iface Store.Update(ctx, object) (err)
 //@   modifies topoWrites
 //@   ensures topoWrites == old(topoWrites) + 1
 //@ iface Store.Delete(ctx, object) (err)
-//@   modifies topoWrites
-//@   ensures topoWrites == old(topoWrites) + 1
+//@   requires object != nil
+//@   modifies topoWrites, topoDeletes, lastTopoDeleteID
+//@   ensures topoWrites == old(topoWrites) + 1 && topoDeletes == old(topoDeletes) + 1 && lastTopoDeleteID == object.ID
 
 //@ iface Store.List(ctx, filters) (result, err)
 //@   modifies nothing
